@@ -1033,3 +1033,32 @@ Proof.
   - exact (change_resolves_back segs sorted w even_w same_len k k_in).
   - exact (change_shorter_ambiguous segs sorted w even_w same_len k k_in).
 Qed.
+
+(** * disambiguate_prefix_with_refs *)
+Lemma refs_len_from_spec k names : forall fuel n, length k - n < fuel ->
+  let r := refs_len_from fuel n k names in
+  let is_name j := existsb (id_eqb (firstn j k)) names in
+  (r = length k \/ (n <= r /\ r < length k /\ is_name r = false)) /\
+  (forall j, n <= j -> j < r -> j < length k -> is_name j = true) /\
+  (n <= length k -> n <= r).
+Proof.
+  induction fuel as [|fuel IH]; intros n F; [lia|]. cbn [refs_len_from].
+  destruct (Nat.leb_spec (length k) n) as [L|L].
+  - split; [now left|]. split; [intros j H1 H2 H3; lia|lia].
+  - destruct (existsb (id_eqb (firstn n k)) names) eqn:E.
+    + destruct (IH (S n)) as (A & B & C); [lia|]. split; [|split].
+      * destruct A as [A|(A1 & A2 & A3)]; [now left|right; repeat split; try lia; assumption].
+      * intros j H1 H2 H3. destruct (Nat.eq_dec j n) as [->|N]; [assumption|]. apply B; lia.
+      * intros _. specialize (C ltac:(lia)). lia.
+    + split; [right; repeat split; try lia; assumption|]. split; [intros j H1 H2 H3; lia|lia].
+Qed.
+
+(** the shown length is never a bookmark / tag name (unless it is the whole id), and every
+    length skipped on the way is one *)
+Lemma refs_shadow_thm k names m :
+  let r := disambiguate_with_refs k names m in
+  let is_name j := existsb (id_eqb (firstn j k)) names in
+  (r = length k \/ (m <= r /\ r < length k /\ is_name r = false)) /\
+  (forall j, m <= j -> j < r -> j < length k -> is_name j = true) /\
+  (m <= length k -> m <= r).
+Proof. unfold disambiguate_with_refs. apply refs_len_from_spec. lia. Qed.
